@@ -450,8 +450,14 @@ class Renderer:
         m2 = re.match(r"^\s*pub (?:async )?fn (r#)?(\w+)\(req: (\w+), credentials", text)
         if m2:
             self.free_fns.append(((m2.group(1) or "") + m2.group(2), m2.group(3)))
-        if re.match(r"^\s*pub (?:async |const |unsafe )*fn ", text) and not m and not m2 and ev.fn.endswith(("write_soap_action", "write_async_soap_call")):
+        if re.match(r"^\s*pub (?:async |const |unsafe )*fn ", text) and not m and not m2 and ev.fn in self._op_emitters():
             self.problems.append(("operation-signature", ev.site, text.strip()[:120]))
+
+    def _op_emitters(self):
+        if getattr(self, "_ope", None) is None:
+            from rules import anchors as A
+            self._ope = tuple(x for x in (A.method_emitter(self.X), A.operation_fn_emitter(self.X)) if x)
+        return self._ope
 
     def roles(self, ev):
         """hole index -> 'type-ref' | 'module-ref' for references to generated user types (bound to the fixture)"""
